@@ -351,6 +351,20 @@ func init() {
 			tokAssume(ck)
 			ck.RequiredProbes = []string{"transfer_unwound"}
 		})
+	coreCheck("C36",
+		"token worlds where users grant ICS-20 transfer authorizations (1-2 channel allocations, 1-2 denomination limits incl. unbounded, optional receiver allow lists, memo lists none / * / explicit) and grantees execute transfers through authz MsgExec around every boundary: exactly the remaining limit, one above, one below, the entire-balance sentinel, receivers on and off the list, allowed and other memos, channels without allocation — interleaved with ordinary traffic, relays and failing transactions. Oracle: an accepted exec must be allowed by the model (grant ledger: granted minus accepted per channel and denomination); after every block the stored remaining limits equal the model, exhausted allocations and grants are gone, a refused exec leaves the grant unchanged. Non-trivial case = distinct (accepted/refused, model verdict and reason)",
+		[]string{"gexec:", "grant:"}, 96, 1200,
+		func(o *CoreOptions, r *rand.Rand, tier string) {
+			tokenOptions(o, r)
+			o.WGrant = 26
+			o.WXfer = 14
+			o.TightTmo = 10
+			o.MaxPkts = 26
+		},
+		func(ck *sim.Check) {
+			tokAssume(ck)
+			ck.RequiredProbes = []string{"transfer_grant_created", "grant_exec_accepted", "grant_exec_refused", "grants_compared_with_model", "grant_allocation_exhausted"}
+		})
 	coreCheck("C41",
 		"token worlds where governance (real gov module: proposal, vote, voting period) adds, updates, resets and removes rate limits with quotas of 0-2 % on (denomination, channel) paths, preferring vouchers whose small supply makes quotas bind; transfers flow both ways with success and error acknowledgements, timeouts, duplicates and replays; the clock jumps across hour boundaries (begin-block window resets are isolated in empty blocks and accepted only when they are full resets). After every block the stored inflow / outflow / channel value of every rate limit must equal the reference model (amounts accepted in the current window minus those undone in it, each packet undone at most once, error-ack receives leave flows unchanged), and accept/refuse must agree with the quota. Non-trivial case = distinct administration outcomes, quota refusals by direction, observed window resets",
 		[]string{"rladm:", "rl-send-refused:", "rl-recv-refused:", "rl-reset:"}, 96, 1200,
@@ -382,9 +396,10 @@ func init() {
 	coreCheck("C49",
 		"token worlds with attackers: v2 MsgSendPacket whose transfer payload names another account as sender, MsgTransfer signed by one account naming another, relays submitted by arbitrary accounts. Per block: every non-module account whose balance decreased signed (or authorised) a transaction of that block; credits from receive/ack/timeout go only to the packet's receiver or refund its original sender (bank diff vs model), whoever relays. Non-trivial case = distinct attack shapes and refund/credit shapes",
 		[]string{"attack:", "refund:", "mint:", "return:"}, 96, 1400,
-		func(o *CoreOptions, r *rand.Rand, tier string) { tokenOptions(o, r); o.WAttack = 10 },
+		func(o *CoreOptions, r *rand.Rand, tier string) { tokenOptions(o, r); o.WAttack = 10; o.Kinds = []string{"t2"} },
 		func(ck *sim.Check) {
 			tokAssume(ck)
+			ck.RequiredProbes = []string{"attack_refused"}
 		})
 
 	coreCheck("C14",
